@@ -257,7 +257,9 @@ def jobs(tier):
     out = [{"name": "malformed", "target": "checks.c14:job_malformed", "kwargs": {}, "timeout": 120}]
     for m, c, B in ([(1, 1, 3), (2, 1, 3), (1, 2, 2)] if q else [(1, 1, 5), (2, 1, 4), (1, 2, 3), (2, 2, 2), (3, 1, 2)]):
         out.append({"name": f"validate/m{m}c{c}B{B}", "target": "checks.c14:job_validate", "kwargs": dict(m=m, c=c, B=B), "timeout": 280 if q else 3000})
-    pairsets = [([(0, 1)], [(2, 3)]), ([(3, 1)], [(1, 0)]), ([(0, 2), (2, 3)], []), ([], [(1, 3), (0, 2)])]
+    pairsets = [([(0, 1)], [(2, 3)]), ([(3, 1)], [(1, 0)]), ([(0, 2), (2, 3)], []), ([], [(1, 3), (0, 2)]),
+                # one sample in the same slot of several pairs of one kind (accumulation into one row)
+                ([(0, 1), (0, 2)], []), ([], [(3, 1), (2, 1)]), ([(0, 1), (0, 2), (0, 3)], [(1, 2), (3, 2)])]
     if not q:
         pairsets += [([(0, 1), (2, 3)], [(1, 2)]), ([(2, 0)], [(3, 2), (1, 0)])]
     for ml, cl in pairsets:
